@@ -237,6 +237,14 @@ impl World {
         (self.chain.len() - 1) as u32
     }
 
+    /// Reports every statement the tower's own connection executes to `evlog` (rusqlite trace hook).
+    /// To be called again after `restart` (a new connection).
+    pub fn install_sql_trace(&self) {
+        use teos_common::dbm::DatabaseConnection;
+        let mut g = self.dbm.lock().unwrap_or_else(|e| e.into_inner());
+        g.get_mut_connection().trace(Some(crate::evlog::sql_trace));
+    }
+
     /// Crash + restart: every in-memory object is dropped and rebuilt from the database file the way
     /// teosd's main() does (tower key from the keys table, components on the last blocks below `tip`).
     /// `last_blocks` = the blocks of the node's chain ending at the bootstrap tip (oldest first),
